@@ -346,8 +346,15 @@ def run(ctx):
                         continue
                     n += 1
                     v = strip(e["args"][k])
-                    pushes = [x for x in p.events[:p.events.index(e)] if x["k"] == "call" and x["callee"].endswith("::push")
-                              and len(x["args"]) == 2 and strip(x["args"][0]) == v]
+                    adds = [x for x in p.events[:p.events.index(e)] if x["k"] == "call" and not x.get("inlined") and x["args"] and
+                            strip(x["args"][0]) == v and x["callee"].split("::")[-1] in (
+                                "push", "append", "extend", "extend_from_slice", "insert", "resize", "push_within_capacity")]
+                    if adds and not adds[-1]["callee"].endswith("::push"):
+                        ok, why = False, ("the last thing added to the vector (line %d: %s) is a whole sequence of elements: the last of them "
+                                          "can be a list, which %s would splice in" % (adds[-1]["line"], adds[-1]["callee"].split("::")[-1],
+                                                                                     callee.split("::")[-1]))
+                        continue
+                    pushes = [x for x in adds if x["callee"].endswith("::push") and len(x["args"]) == 2]
                     if not pushes:
                         if v[0] == "call" and v[1].endswith("Vec::<T>::new"):
                             continue        # an empty vector: the empty list
@@ -355,7 +362,13 @@ def run(ctx):
                             show(v)[:50], callee.split("::")[-1])
                         continue
                     last = strip(pushes[-1]["args"][1])
-                    vs = p.refine.get(last)
+                    vs, tt = None, pushes[-1]["args"][1]
+                    while vs is None:
+                        vs = p.refine.get(tt)
+                        if vs is None and isinstance(tt, tuple) and tt and tt[0] == "clone":
+                            tt = tt[1]
+                        else:
+                            break
                     if vs is None and last[0] == "agg":
                         vs = frozenset([last[2]])
                     if vs is None or LIST in vs:
